@@ -49,16 +49,19 @@ Definition lib_pick_nonce (d : Z) (dg : bytes) (k : option Z) : Z :=
   | None => lib_nonce d dg
   end.
 
-(* Signature.create -> (r, s, as_der_encoded()).  None = any exception (BKeyError for r = 0 / s = 0 in
-   Signature.__init__, OverflowError for a hash type outside one byte) *)
+(* Signature.create -> (r, s, as_der_encoded()).  None = any exception (BKeyError of Key() for a secret outside
+   [1, n-1] — C04 fix 39fdc6f —, BKeyError for r = 0 / s = 0 in Signature.__init__, OverflowError for a hash
+   type outside one byte) *)
 Definition lib_sign_with (low : Z -> Z) (d : Z) (msg : bytes) (k : option Z) (ht : Z) : option (Z * Z * bytes) :=
   let dg := lib_digest msg in
-  match ecdsa_sign d (lib_z dg) (lib_pick_nonce d dg k) with
-  | None => None
-  | Some (r, s0) =>
-      let s := low s0 in
-      if (0 <=? ht) && (ht <? 256) then Some (r, s, der_enc r s ++ [zb ht]) else None
-  end.
+  if (1 <=? d) && (d <? secp_n) then
+    match ecdsa_sign d (lib_z dg) (lib_pick_nonce d dg k) with
+    | None => None
+    | Some (r, s0) =>
+        let s := low s0 in
+        if (0 <=? ht) && (ht <? 256) then Some (r, s, der_enc r s ++ [zb ht]) else None
+    end
+  else None.
 
 Definition lib_sign := lib_sign_with lib_low_s.
 
@@ -117,23 +120,60 @@ Definition spec_verify (z : Z) (sig : bytes) (Q : Z * Z) : option bool :=
       if in_range r && in_range s && spec_pub_ok Q then Some (ecdsa_verify z r s (Some Q)) else None
   end.
 
-(* ---------------------------------------------------------------- Key(bytes).public_point() for SEC-shaped
-   input (mechanism of C04; modelled here only so that the driver can feed the same key bytes as the harness):
-   no range check, no residue check; y = (x^3 + 7)^((p+1)/4), negated when its parity is not the prefix's *)
+(* ---------------------------------------------------------------- the public key as bytes: Key(bytes) with the
+   default strict=True (C04 fix 75f674d) for SEC-shaped input — 33 bytes 02/03 or 65 bytes 04; every other shape
+   is refused here (hybrid 06/07: "Unrecognised key format"; other spellings are C04/C12's domain and are not
+   generated).  Compressed: y2 = (pow(x, 3, p) + 7) % p, y0 = mod_sqrt(y2); refused when x >= p or y0^2 != y2;
+   public_point() then returns y0 or p - y0 by parity.  Uncompressed: refused when x >= p, y >= p or y^2 != y2. *)
 Definition lib_pub_point (b : bytes) : option (Z * Z) :=
   match b with
   | pfx :: rest =>
       if ((bz pfx =? 2) || (bz pfx =? 3)) && (length rest =? 32)%nat then
         let x := of_be rest in
+        let y2 := (x * x * x + secp_b) mod secp_p in
+        let y0 := mod_sqrt y2 in
+        if (secp_p <=? x) || negb ((y0 * y0) mod secp_p =? y2) then None
+        else Some (x, if Bool.eqb (Z.odd y0) (bz pfx =? 3) then y0 else secp_p - y0)
+      else if (bz pfx =? 4) && (length rest =? 64)%nat then
+        let x := of_be (firstn 32 rest) in
+        let y := of_be (skipn 32 rest) in
+        let y2 := (x * x * x + secp_b) mod secp_p in
+        if (secp_p <=? x) || (secp_p <=? y) || negb ((y * y) mod secp_p =? y2) then None
+        else Some (x, y)
+      else None
+  | [] => None
+  end.
+
+(* the tolerant reading Key(bytes, strict=False) keeps (the code before C04 fix 75f674d): no range check, no
+   residue check *)
+Definition lib_pub_point_lax (b : bytes) : option (Z * Z) :=
+  match b with
+  | pfx :: rest =>
+      if ((bz pfx =? 2) || (bz pfx =? 3)) && (length rest =? 32)%nat then
+        let x := of_be rest in
         let y0 := mod_sqrt (powmod x 3 secp_p + 7) in
-        let y := if Bool.eqb (Z.odd y0) (bz pfx =? 3) then y0 else secp_p - y0 in
-        Some (x, y)
+        Some (x, if Bool.eqb (Z.odd y0) (bz pfx =? 3) then y0 else secp_p - y0)
       else if (bz pfx =? 4) && (length rest =? 64)%nat then
         Some (of_be (firstn 32 rest), of_be (skipn 32 rest))
       else None
   | [] => None
   end.
 
-(* guard of lib_verify_exact on the key side (C04 finding 14): coordinates not reduced modulo p *)
+(* verify(txid, signature_bytes, public_key_bytes) — the public entry point with a key given in SEC form *)
+Definition lib_verify_key (dg sig pk : bytes) : option bool :=
+  match lib_pub_point pk with
+  | Some Q => lib_verify dg sig Q
+  | None => None
+  end.
+
+(* standard ECDSA on the same three byte strings: SEC 1 2.3.4 for the key, then spec_verify *)
+Definition spec_verify_key (z : Z) (sig pk : bytes) : option bool :=
+  match parse_point pk with
+  | Some Q => spec_verify z sig Q
+  | None => None
+  end.
+
+(* guard of the point-level statement lib_verify_exact: coordinates reduced modulo p.  Points with unreduced
+   coordinates reach Signature.verify only through Key(..., strict=False) since C04 fix 75f674d *)
 Definition coords_reduced (Q : Z * Z) : bool :=
   let (x, y) := Q in (0 <=? x) && (x <? secp_p) && (0 <=? y) && (y <? secp_p).
